@@ -1292,3 +1292,62 @@ def pushed_fixed_tables(prog, fns):
                 yield f, None, cap, None, site.get("span")
             else:
                 yield f, (show(bound) == show(cap)) or None if show(bound) == show(cap) else False, cap, bound, site.get("span")
+
+
+# ------------------------------------------------------------------------------------------------ interpolation windows stay inside the table
+def interpolation_window_rule(res, prog, rule, module="hll::cubic_interpolation"):
+    """the table interpolators pick a 4-point window around the interval that straddles x (shifted inwards at both ends).  By value:
+    the return expression of each public interpolator of the module is evaluated (straddle search replaced by its specification) for
+    x at the start, middle and end of *every* interval of tables of several lengths: every index must stay inside the table and
+    the result must lie in the straddled interval.  The last interval is reached only by raw estimates just below the table's top
+    -- a 0.4 % band of cardinalities per lg_k -- where an off-by-one in the window shift is an index-out-of-bounds panic."""
+    from .. import formula
+    import bisect
+    n = 0
+    for f in sorted(prog.fns.values(), key=lambda x: x.id):
+        if f.promoted or not f.id.startswith(module + "::") or "{closure" in f.id or f.argc != 3 or not f.exported and not f.is_pub:
+            continue
+        tys = [f.local_ty(i) for i in (1, 2, 3)]
+        if tys[0] != "&[f64]" or tys[2] != "f64":
+            continue
+        e = ret_expr(prog, f)
+        n += 1
+        if e is None:
+            res.tri(None, rule, "%s|%s" % (rule, f.id), "no single return expression")
+            continue
+        names = [f.local_name(i) or "arg%d" % i for i in (1, 2, 3)]
+        verdict, wit = True, ""
+        for ln in (4, 5, 9, 33):
+            xs = [float(3 * i * i + 2 * i) for i in range(ln)]
+            ys = [float(i) for i in range(ln)]
+            for off in range(ln - 1):
+                for t in (0.0, 0.5, 0.999):
+                    x = xs[off] + t * (xs[off + 1] - xs[off])
+                    env = {"@prog": prog, "@ieee": True, names[0]: xs, names[2]: x, "len(%s)" % names[0]: ln, "PtrMetadata(%s)" % names[0]: ln,
+                           "@fn:find_straddle": (lambda arr, v: bisect.bisect_right(arr, v) - 1)}
+                    if tys[1] == "&[f64]":
+                        env[names[1]] = ys
+                        env["len(%s)" % names[1]] = ln
+                        env["PtrMetadata(%s)" % names[1]] = ln
+                    else:
+                        env[names[1]] = 1.0
+                    try:
+                        got = formula.evaluate(e, env)
+                    except formula.Uneval as u:
+                        if "out of range" in str(u):
+                            verdict, wit = False, "table of %d points, x in interval %d (the %s one): an index leaves the table" % (ln, off, "last" if off == ln - 2 else "first" if off == 0 else "inner")
+                        elif verdict:
+                            verdict, wit = None, str(u)[:60]
+                        continue
+                    except (TypeError, ZeroDivisionError, IndexError) as u:
+                        if verdict:
+                            verdict, wit = None, repr(u)[:60]
+                        continue
+                    if isinstance(got, (int, float)) and not (off - 0.5 <= got <= off + 1.5) and verdict:
+                        verdict, wit = False, "table of %d points, x in interval %d: result %.3f is not in the straddled interval [%d, %d]" % (ln, off, got, off, off + 1)
+                if verdict is False:
+                    break
+            if verdict is False:
+                break
+        res.tri(verdict, rule, "%s|%s" % (rule, f.id), "%s: %s" % (f.id, wit), f.id, sample={"rule": rule, "fn": f.id, "tables": [4, 5, 9, 33]})
+    res.rule(rule, n, 2, "table interpolators evaluated over every interval")
